@@ -1,6 +1,5 @@
 import CalicoVerif.Proofs.C02Hist
-/-! C02: route → VTEP closure after every message of a flush, under the extra hypothesis that no route
-the dataplane has is being re-pointed away from a VTEP that the same flush removes. -/
+/-! C02: route → VTEP closure after every message of a flush. -/
 namespace CalicoVerif.C02
 
 def isRV : Msg → Bool
@@ -157,29 +156,23 @@ theorem pre_buffers (s : State) : (runPhases prePhases s).1.route = s.route ∧ 
   exact ⟨rfl, rfl⟩
 
 theorem flush_split (s : State) : s.flush = runPhases (prePhases ++
-    [flushRouteRemoves, flushVTEPRemoves, flushVTEPAdds, flushRouteAdds] ++ postPhases) s := rfl
+    [flushRouteRemoves, flushVTEPAdds, flushRouteAdds, flushVTEPRemoves] ++ postPhases) s := rfl
 
-/-- Route → VTEP closure after every single message of a flush.  Extra hypothesis `hnr` (the part of
-the statement that is false without it, see `route_vtep_not_closed`): every route the dataplane has
-that needs a VTEP whose removal is pending is itself pending removal — i.e. the flush does not
-re-point (update in place) a route away from a VTEP it also removes. -/
-theorem flush_closed_routes {s : State} {u d : DP} (hi : Inv s u d) (hu : u.closedRoutes) (hd : d.closedRoutes)
-    (hnr : ∀ dst r n, d.route dst = some r → r.vtep = some n → n ∈ s.vtep.del → dst ∈ s.route.del) :
+/-- Route → VTEP closure after every single message of a flush (flush order: route removes, VTEP
+adds, route adds/updates, VTEP removes). -/
+theorem flush_closed_routes {s : State} {u d : DP} (hi : Inv s u d) (hu : u.closedRoutes) (hd : d.closedRoutes) :
     AfterEach DP.closedRoutes d s.flush.2 := by
   rw [flush_split, runPhases_append, runPhases_append]
   simp only [AfterEach_append]
   -- pre
   obtain ⟨k0, c0, r0, v0⟩ := closedR_nonRV (nrv_pre s) hd
   have i0 := (ok_pre s u d hi).2
-  obtain ⟨br, bv⟩ := pre_buffers s
-  generalize hs0 : (runPhases prePhases s).1 = s0 at i0 br bv ⊢
+  generalize hs0 : (runPhases prePhases s).1 = s0 at i0 ⊢
   generalize hd0 : d.applyAll (runPhases prePhases s).2 = d0 at i0 c0 r0 v0 ⊢
   have kmid : AfterEach DP.closedRoutes d0
-      (runPhases [flushRouteRemoves, flushVTEPRemoves, flushVTEPAdds, flushRouteAdds] s0).2 := by
-    -- the four route / VTEP phases
+      (runPhases [flushRouteRemoves, flushVTEPAdds, flushRouteAdds, flushVTEPRemoves] s0).2 := by
     simp only [runPhases_cons, runPhases, List.append_nil, AfterEach_append]
     -- R1: route removes
-    obtain ⟨_, e1, i1r⟩ := routeLens.phaseDel (c := s0.route) (U := u.route) (d := d0) i0.route
     have k1 : AfterEach DP.closedRoutes d0 (flushRouteRemoves s0).2 := by
       refine (AfterEach_of_inv (J := DP.closedRoutes) (fun _ x => x) ?_ c0).1
       intro m hm d' hd'
@@ -191,113 +184,90 @@ theorem flush_closed_routes {s : State} {u d : DP} (hi : Inv s u d) (hu : u.clos
       · simp only [hdd, if_false] at h1; exact hd' dst' r n h1 h2
     have i1 := (ok_routeRemoves s0 u d0 i0).2
     have c1 := AfterEach_last k1
-    have e1' : (d0.applyAll (flushRouteRemoves s0).2).route = applyDels d0.route s0.route.del := by
-      have : d0.applyAll (flushRouteRemoves s0).2 = _ := e1
-      rw [this]; rfl
-    have e1v : (d0.applyAll (flushRouteRemoves s0).2).vtep = d0.vtep := by
-      have : d0.applyAll (flushRouteRemoves s0).2 = _ := e1
-      rw [this]; rfl
-    have bv1 : (flushRouteRemoves s0).1.vtep = s0.vtep := rfl
-    generalize hs1 : (flushRouteRemoves s0).1 = s1 at i1 bv1 ⊢
-    generalize hd1 : d0.applyAll (flushRouteRemoves s0).2 = d1 at i1 c1 e1' e1v ⊢
+    have b1 : (flushRouteRemoves s0).1.route.del = [] := rfl
+    generalize hs1 : (flushRouteRemoves s0).1 = s1 at i1 b1 ⊢
+    generalize hd1 : d0.applyAll (flushRouteRemoves s0).2 = d1 at i1 c1 ⊢
     refine ⟨k1, ?_⟩
-    -- R2: VTEP removes
-    have k2 : AfterEach DP.closedRoutes d1 (flushVTEPRemoves s1).2 := by
-      refine (AfterEach_of_inv (J := fun d' => d'.closedRoutes ∧ d'.route = d1.route) (fun _ x => x.1) ?_ ⟨c1, rfl⟩).1
+    -- R2: VTEP adds
+    have k2 : AfterEach DP.closedRoutes d1 (flushVTEPAdds s1).2 := by
+      refine (AfterEach_of_inv (J := DP.closedRoutes) (fun _ x => x) ?_ c1).1
       intro m hm d' hd'
-      obtain ⟨n, hn, rfl⟩ := mem_flushDel (c := s1.vtep) (f := Msg.vtepRemove) hm
-      refine ⟨?_, hd'.2⟩
-      intro dst r n' h1 h2
-      have h1' : d'.route dst = some r := h1
-      show ((fupd d'.vtep n none) n').isSome
-      have hne : n' ≠ n := by
-        intro e; subst e
-        rw [hd'.2, e1', applyDels_get] at h1'
-        by_cases hdel : dst ∈ s0.route.del
-        · simp [hdel] at h1'
-        · simp only [hdel, if_false] at h1'
-          rw [r0] at h1'
-          have := hnr dst r n' h1' h2 (by rw [← bv, ← bv1]; exact hn)
-          rw [← br] at this; exact hdel this
-      simp only [fupd, hne, if_false]
-      exact hd'.1 dst r n' h1' h2
-    have i2 := (ok_vtepRemoves s1 u d1 i1).2
-    have c2 := AfterEach_last k2
-    have b2 : (flushVTEPRemoves s1).1.vtep.del = [] := rfl
-    generalize hs2 : (flushVTEPRemoves s1).1 = s2 at i2 b2 ⊢
-    generalize hd2 : d1.applyAll (flushVTEPRemoves s1).2 = d2 at i2 c2 ⊢
-    refine ⟨k2, ?_⟩
-    -- R3: VTEP adds
-    have k3 : AfterEach DP.closedRoutes d2 (flushVTEPAdds s2).2 := by
-      refine (AfterEach_of_inv (J := DP.closedRoutes) (fun _ x => x) ?_ c2).1
-      intro m hm d' hd'
-      obtain ⟨n, t, _, hm⟩ := mem_flushUpd (c := s2.vtep) (f := fun k v => [Msg.vtepUpdate k v]) hm
+      obtain ⟨n, t, _, hm⟩ := mem_flushUpd (c := s1.vtep) (f := fun k v => [Msg.vtepUpdate k v]) hm
       simp only [List.mem_singleton] at hm; subst hm
       intro dst r n' h1 h2
       show ((fupd d'.vtep n (some t)) n').isSome
       by_cases hnn : n' = n
       · simp [fupd, hnn]
       · simp only [fupd, hnn, if_false]; exact hd' dst r n' h1 h2
-    have i3 := (ok_vtepAdds s2 u d2 i2).2
+    have i2 := (ok_vtepAdds s1 u d1 i1).2
+    have c2 := AfterEach_last k2
+    have b2 : (flushVTEPAdds s1).1.route.del = [] := b1
+    have b2' : (flushVTEPAdds s1).1.vtep.upd = [] := rfl
+    generalize hs2 : (flushVTEPAdds s1).1 = s2 at i2 b2 b2' ⊢
+    generalize hd2 : d1.applyAll (flushVTEPAdds s1).2 = d2 at i2 c2 ⊢
+    refine ⟨k2, ?_⟩
+    -- R3: route adds / updates: a declared VTEP is present (its update is flushed, its removal not yet)
+    have hv : ∀ n, (u.vtep n).isSome → (d2.vtep n).isSome := by
+      intro n hn
+      rw [i2.vtep.view n, b2'] at hn
+      simp only [mget_nil] at hn
+      by_cases hdel : n ∈ s2.vtep.del <;> simp_all
+    have k3 : AfterEach DP.closedRoutes d2 (flushRouteAdds s2).2 := by
+      refine (AfterEach_of_inv (J := fun d' => d'.closedRoutes ∧ d'.vtep = d2.vtep) (fun _ x => x.1) ?_ ⟨c2, rfl⟩).1
+      intro m hm d' hd'
+      obtain ⟨dst, r, hdr, hm⟩ := mem_flushUpd (c := s2.route) (f := fun k v => [Msg.routeUpdate k v]) hm
+      simp only [List.mem_singleton] at hm; subst hm
+      have hur : u.route dst = some r := by
+        rw [i2.route.view dst, mget_of_mem i2.route.updNodup hdr]
+      refine ⟨?_, hd'.2⟩
+      intro dst' r' n h1 h2
+      show (d'.vtep n).isSome
+      simp only [DP.apply, fupd] at h1
+      by_cases hdd : dst' = dst
+      · simp only [hdd, if_true, Option.some.injEq] at h1
+        subst h1
+        rw [hd'.2]
+        exact hv n (hu dst r n hur h2)
+      · simp only [hdd, if_false] at h1; exact hd'.1 dst' r' n h1 h2
+    have i3 := (ok_routeAdds s2 u d2 i2).2
     have c3 := AfterEach_last k3
-    have b3 : (flushVTEPAdds s2).1.vtep.del = [] := b2
-    have b3' : (flushVTEPAdds s2).1.vtep.upd = [] := rfl
-    generalize hs3 : (flushVTEPAdds s2).1 = s3 at i3 b3 b3' ⊢
-    generalize hd3 : d2.applyAll (flushVTEPAdds s2).2 = d3 at i3 c3 ⊢
+    have b3 : (flushRouteAdds s2).1.route.del = [] := b2
+    have b3' : (flushRouteAdds s2).1.route.upd = [] := rfl
+    generalize hs3 : (flushRouteAdds s2).1 = s3 at i3 b3 b3' ⊢
+    generalize hd3 : d2.applyAll (flushRouteAdds s2).2 = d3 at i3 c3 ⊢
     refine ⟨k3, ?_⟩
-    -- R4: route adds / updates
-    have hv : u.vtep = d3.vtep := i3.vtep.synced b3' b3
-    refine (AfterEach_of_inv (J := fun d' => d'.closedRoutes ∧ d'.vtep = d3.vtep) (fun _ x => x.1) ?_ ⟨c3, rfl⟩).1
+    -- R4: VTEP removes: the routes downstream are exactly the declared ones, none needs a removed VTEP
+    have hr : u.route = d3.route := i3.route.synced b3' b3
+    refine (AfterEach_of_inv (J := fun d' => d'.closedRoutes ∧ d'.route = d3.route) (fun _ x => x.1) ?_ ⟨c3, rfl⟩).1
     intro m hm d' hd'
-    obtain ⟨dst, r, hdr, hm⟩ := mem_flushUpd (c := s3.route) (f := fun k v => [Msg.routeUpdate k v]) hm
-    simp only [List.mem_singleton] at hm; subst hm
-    have hur : u.route dst = some r := by
-      rw [i3.route.view dst, mget_of_mem i3.route.updNodup hdr]
+    obtain ⟨n, hn, rfl⟩ := mem_flushDel (c := s3.vtep) (f := Msg.vtepRemove) hm
+    have hun : u.vtep n = none := by
+      rw [i3.vtep.view n, i3.vtep.disj n hn]; simp [hn]
     refine ⟨?_, hd'.2⟩
-    intro dst' r' n h1 h2
-    show (d'.vtep n).isSome
-    simp only [DP.apply, fupd] at h1
-    by_cases hdd : dst' = dst
-    · simp only [hdd, if_true, Option.some.injEq] at h1
-      subst h1
-      rw [hd'.2, ← hv]
-      exact hu dst r n hur h2
-    · simp only [hdd, if_false] at h1; exact hd'.1 dst' r' n h1 h2
+    intro dst r n' h1 h2
+    have h1' : d'.route dst = some r := h1
+    show ((fupd d'.vtep n none) n').isSome
+    have hne : n' ≠ n := by
+      intro e; subst e
+      rw [hd'.2, ← hr] at h1'
+      have := hu dst r n' h1' h2
+      rw [hun] at this; cases this
+    simp only [fupd, hne, if_false]
+    exact hd'.1 dst r n' h1' h2
   refine ⟨⟨k0, kmid⟩, ?_⟩
   rw [applyAll_append, hd0]
   exact (closedR_nonRV (nrv_post _) (AfterEach_last kmid)).1
 
-/-- Upstream-level form of the extra hypothesis: a route the dataplane has that needs a VTEP which is
-no longer declared is itself no longer declared (it is removed, not re-pointed). -/
-def NoRepoint (d u : DP) : Prop :=
-  ∀ dst r n, d.route dst = some r → r.vtep = some n → u.vtep n = none → u.route dst = none
-
-/-- at every flush of the history: the declared state is route-closed and `NoRepoint` holds w.r.t. the
-dataplane state (= the state declared at the previous flush) -/
-def RoutesOKAtFlushes (d u : DP) : List Step → Prop
+/-- at every flush of the history the declared state is route-closed -/
+def RoutesClosedAtFlushes (u : DP) : List Step → Prop
   | [] => True
-  | .call c :: t => RoutesOKAtFlushes d (upApply u c) t
-  | .flush :: t => u.closedRoutes ∧ NoRepoint d u ∧ RoutesOKAtFlushes u u t
-
-theorem hnr_of_noRepoint {s : State} {u d : DP} (hi : Inv s u d) (h : NoRepoint d u) :
-    ∀ dst r n, d.route dst = some r → r.vtep = some n → n ∈ s.vtep.del → dst ∈ s.route.del := by
-  intro dst r n h1 h2 hn
-  have hun : u.vtep n = none := by
-    rw [hi.vtep.view n, hi.vtep.disj n hn]; simp [hn]
-  have hur := h dst r n h1 h2 hun
-  rw [hi.route.view dst] at hur
-  cases hm : mget s.route.upd dst with
-  | some v => rw [hm] at hur; cases hur
-  | none =>
-    rw [hm] at hur
-    by_cases hd : dst ∈ s.route.del
-    · exact hd
-    · simp only [hd, if_false] at hur; rw [h1] at hur; cases hur
+  | .call c :: t => RoutesClosedAtFlushes (upApply u c) t
+  | .flush :: t => u.closedRoutes ∧ RoutesClosedAtFlushes u t
 
 /-- Route → VTEP closure after every single message, for all histories (with flushes anywhere) that
-respect the upstream protocol and satisfy `RoutesOKAtFlushes`. -/
+respect the upstream protocol and whose declared state is route-closed at each flush. -/
 theorem hist_closed_routes {s : State} {u d : DP} (hi : Inv s u d) (hd : d.closedRoutes) (h : List Step)
-    (hv : ValidHist u h) (hr : RoutesOKAtFlushes d u h) :
+    (hv : ValidHist u h) (hr : RoutesClosedAtFlushes u h) :
     ∃ s' ms, execHist s h = some (s', ms) ∧ AfterEach DP.closedRoutes d ms := by
   induction h generalizing s u d with
   | nil => exact ⟨s, [], rfl, hd⟩
@@ -309,12 +279,9 @@ theorem hist_closed_routes {s : State} {u d : DP} (hi : Inv s u d) (hd : d.close
       exact ⟨s', ms, by simp only [execHist, hcall, he], hw⟩
     | flush =>
       have hf := flush_ok s u d hi
-      have hcl := flush_closed_routes hi hr.1 hd (hnr_of_noRepoint hi hr.2.1)
-      have hsync := flush_synced hi
-      have hi' : Inv s.flush.1 u u := by rw [← hsync] at hf; rw [← hsync]; exact hsync ▸ hf.2
-      have hcu : u.closedRoutes := hr.1
-      obtain ⟨s', ms, he, hw⟩ := ih hi' hcu hv hr.2.2
+      have hcl := flush_closed_routes hi hr.1 hd
+      obtain ⟨s', ms, he, hw⟩ := ih hf.2 (AfterEach_last hcl) hv hr.2
       refine ⟨s', s.flush.2 ++ ms, by simp only [execHist, he], ?_⟩
-      rw [AfterEach_append, hsync]; exact ⟨hcl, hw⟩
+      rw [AfterEach_append]; exact ⟨hcl, hw⟩
 
 end CalicoVerif.C02
